@@ -64,7 +64,7 @@ def prop_wave(case):
     def sim(klass=WaveSim, waves=None, sims=None, dl=None, ksims=None, seed=1, mode=None, per_lane=None, act=None, pre=None, owave=None, **opts):
         waves = waves or case['waves']
         sims = sims or len(waves[0])
-        s = klass(c, delays if dl is None else dl, sims=sims, c_caps=case['cap'], a_ctrl=act, **opts)
+        s = klass(c, delays if dl is None else dl, sims=sims, c_caps=opts.pop('caps', case['cap']), a_ctrl=act, **opts)
         if mode is not None:
             s.simctl_int[1] = mode
         if per_lane is not None:
@@ -128,6 +128,12 @@ def prop_wave(case):
         stripped = len(s2.ops) < len(base.ops)
     s2b = sim(dl=d_alone, strip_forks=sf, c_reuse=True)
     same(r0, res(s2b), 'strip_forks+c_reuse vs plain' if sf else 'c_reuse vs plain')
+    # 2c per-line capacities: a stripped branch takes over the capacity of its stem, so arrival times and overflow marks may differ between
+    # strip_forks on and off - but never the initial and final values (overflow removes transitions in pairs)
+    capsv = W.caps_for(nlines, [[4, 16, 8, 4, 32, 4, 12], [16, 4, 4, 8], [4, 4, 64], [8, 4]][case['seed'] % 4])
+    keep = [i for i, k in enumerate(CMP_ROWS) if k in (3, 6)]
+    same(res(sim(dl=d_alone, caps=capsv))[keep], res(sim(dl=d_alone, caps=capsv, strip_forks=True))[keep],
+         'initial / final values with per-line capacities, strip_forks on vs off')
     # 3 cuda path
     s3 = sim(WaveSimCuda, dl=d_alone, act=actrl)
     same(r0, res(s3), 'WaveSimCuda vs WaveSim')
@@ -270,5 +276,5 @@ def prop_logic(case):
     return Obs(multi_fork and len(base.level_starts) >= 3 and (reused or stripped), labels, checks=5)
 
 
-PARTS = [Part('wave', prop_wave, strategy=wave_cases, quick=(8, 150), thorough=(16, 1500)),
+PARTS = [Part('wave', prop_wave, strategy=wave_cases, quick=(8, 100), thorough=(16, 1500)),
          Part('logic', prop_logic, strategy=logic_cases, quick=(8, 200), thorough=(16, 3000))]
